@@ -152,10 +152,15 @@ def _r4(ctx):
     P = lambda n: sp.Symbol(n, positive=True)
     calls = []
 
+    G = sp.Function("g_rest", positive=True)
+    sig = [a.arg for a in ctx.src.func("activation.activity").node.args.args]
+
     def fake_activity(I_, args, kw):
+        from ptstat.symlib import iterate
+        bound = dict(zip(sig, args)); bound.update(kw)
         iso, mass = args[0], args[1]
         calls.append((iso, mass))
-        return {iso: [mass, 2 * mass]}
+        return {iso: [mass * G(sp.sympify(T)) for T in iterate(I_, bound["rest_times"])]}
     w = world(ctx, stubs={"activation.activity": fake_activity})
     I, A = w.I, w.atoms
     Fe, Fe56, O = A["element"], A["isotope"], A["element2"]
@@ -184,10 +189,13 @@ def _r4(ctx):
     if isinstance(act, dict):
         for iso, wv in want.items():
             if iso in act:
+                ctx.check(len(act[iso]) == 2, "R4", f"one activity per requested rest time for {iso.name}", f"{_s(act[iso])}", site)
+                if len(act[iso]) != 2:
+                    continue
                 eq(ctx, "R4", f"mass handed to activity() for {iso.name}: mass * mass fraction [* abundance/100], summed per product",
-                   act[iso][0], wv, site)
-                eq(ctx, "R4", f"accumulation is per rest time for {iso.name}", act[iso][1], 2 * wv, site)
-    ctx.floor("R4", 7)
+                   act[iso][0], wv * G(0), site)
+                eq(ctx, "R4", f"accumulation is per rest time for {iso.name}", act[iso][1], wv * G(P("T")), site)
+    ctx.floor("R4", 10)
 
 
 PROBE = {1: "101", 2: "26", 4: "56", 6: "6.5", 11: "11.5", 13: "y", 14: "14.5", 15: "15.5", 16: "16.5",
